@@ -324,10 +324,20 @@ func (c *Conn) Write(b []byte) (int, error) {
 	}
 	p := c.wr
 	p.mu.Lock()
-	if p.rclosed || p.reset != nil {
+	if p.reset != nil {
 		p.mu.Unlock()
-		c.net.Stats.Add("stream.write_to_closed_peer", 1)
+		c.net.Stats.Add("stream.write_to_reset_peer", 1)
 		return 0, &net.OpError{Op: "write", Net: "tcp", Err: errors.New("broken pipe")}
+	}
+	if p.rclosed {
+		// The peer closed its end (FIN). A real kernel accepts the write and the data
+		// vanishes (the reset comes back later); only a read sees the EOF.
+		p.mu.Unlock()
+		if c.Tap != nil && len(b) > 0 {
+			c.Tap(append([]byte(nil), b...))
+		}
+		c.net.Stats.Add("stream.write_discarded_peer_closed", 1)
+		return len(b), nil
 	}
 	if p.closed {
 		p.mu.Unlock()
